@@ -198,8 +198,10 @@ def resolver_arms(ctx, rid):
         if arm is None:
             continue
         syms = arm_syms(arm["pat"])
-        syms[ty_id] = "TY"
-        t = N.term(arm["body"], syms)
+        # TY = the type as the match sees it (after the Cow unwrapping, C01.12): the path AND the parameters must be taken from that same value,
+        # so the arm is rendered without a symbol and the scrutinee's own term is then abbreviated
+        tys = show(N.term(strip(scr["base"]), syms), 10 ** 6)
+        t = show(N.term(arm["body"], syms), 10 ** 6).replace(tys, "TY")
         exp = "TypeGenerator::type_path_maybe_with_substitutes(P0,TY.path,vec+(for(TY.type_params){if(let v1::Some($)=elem(TY.type_params).ty){%s?}else{'()'}}))" % RECNQ("elem(TY.type_params).ty@v1::Some.0.id")
         expect_term(ctx, rid, "resolver/%s.path" % v, arm, t, exp, "struct/enum reference: own path + non-skipped type params resolved in order (order-preserving filter_map)")
     # result wrapping
